@@ -569,9 +569,12 @@ impl<T: Send> UnboundedShared<T> {
     if self.remove_waiter(&mut c, id) {
       return Err(RecvTimeoutOutcome::Timeout);
     }
-    drop(c);
     match cell.state.load(Ordering::Acquire) {
       WAITER_FULFILLED => Ok(cell.take().expect("fulfilled waiter cell must hold an item")),
+      // A wake-one already consumed our registration for an item: take it now
+      // instead of reporting Timeout and leaving it (and the wake) stranded
+      // while other receivers sleep.
+      WAITER_NOTIFIED => self.pop_locked(&mut c).ok_or(RecvTimeoutOutcome::Timeout),
       _ => Err(RecvTimeoutOutcome::Timeout),
     }
   }
@@ -676,11 +679,24 @@ impl<T: Send> UnboundedShared<T> {
         // this lock). Recover a fulfilled item so it is never lost, and rearm
         // the cell: the ctx outlives this wait (handles cache it), and a
         // stale FULFILLED with an emptied slot would panic the next poll.
-        if ctx.cell.state.load(Ordering::Acquire) == WAITER_FULFILLED {
-          if let Some(item) = ctx.cell.take() {
-            self.reclaim(&mut c, item, &mut wakes);
+        match ctx.cell.state.load(Ordering::Acquire) {
+          WAITER_FULFILLED => {
+            if let Some(item) = ctx.cell.take() {
+              self.reclaim(&mut c, item, &mut wakes);
+            }
+            ctx.cell.rearm();
           }
-          ctx.cell.rearm();
+          // A wake-one consumed this registration and the wait is abandoned
+          // before acting on it: pass the wake on so it is not swallowed.
+          WAITER_NOTIFIED => {
+            if let Some(e) = c.waiters.pop_front() {
+              e.cell.state.store(WAITER_NOTIFIED, Ordering::Release);
+              wakes.0.push(e.wake);
+              self.store_waiter_count(&c);
+            }
+            ctx.cell.rearm();
+          }
+          _ => {}
         }
       }
     }
